@@ -67,7 +67,7 @@ class C20(Sim):
             "distinct = distinct (element-kind, op-kind multiset signature, interleaving hash); "
             "non-trivial = at least one union that merged two blocks or one pop of a non-empty queue")
     FAULT_KINDS = ["reject"]
-    PROBES = ["self_union", "union_absent", "repeat_add", "tie_pop", "inf_priority", "mixed_elements", "tuple_elements",
+    PROBES = ["held_item_rechecked", "self_union", "union_absent", "repeat_add", "tie_pop", "inf_priority", "mixed_elements", "tuple_elements",
               "component_query", "mapping_query", "merge", "constructor_duplicates", "same_item_pushed_again", "deep_tree_bulk_query"]
     QUICK_RUNS = 12000
     THOROUGH_RUNS = 2000000
@@ -140,6 +140,7 @@ class C20(Sim):
         self.pending = {}  # (item id, priority) -> how many times pushed and not handed out yet (a multiset)
         self.next_item = 0
         self.popped = set()
+        self.held = []
         self.last_push = None
         self.merges = 0
         self.pops = 0
@@ -448,6 +449,7 @@ class C20(Sim):
             if sum(n_ for (_, w_), n_ in self.pending.items() if w_ == mn) > 1:
                 self.probes["tie_pop"] += 1
             if op != "front":
+                self.held.append((it, x, p))  # the caller keeps what it was handed: it must go on describing that pushed item
                 self.pending[(x[1], p)] -= 1
                 if self.pending[(x[1], p)] == 0:
                     del self.pending[(x[1], p)]
@@ -474,6 +476,8 @@ class C20(Sim):
             query = False
         else:
             raise ValueError("unknown op %r" % (op,))
+        if op in ("push", "pop", "get", "front", "pop_empty", "front_empty", "empty"):
+            self._held_items(op)
         # queries never change the partition; rejected calls never change state
         inv = self.cfg["inv_every"]
         if op.startswith(("find", "connected", "component", "roots", "contains", "len", "counts", "getitem")) or \
@@ -481,6 +485,15 @@ class C20(Sim):
             if inv and (self._step_no % inv == 0 or op.endswith("_absent")):
                 self._uf_invariant(op)
         return res
+
+    def _held_items(self, op):
+        """an item handed out earlier and kept by the caller still is the item that was pushed (each pushed item is handed out once, as itself)"""
+        for it, x, p in self.held[-12:]:
+            if getattr(it, "x", None) != x or getattr(it, "priority", None) != p:
+                self.violation("exactly-once", op, "state_corrupted", "handed-out-item", "",
+                               "an item handed out earlier as (%r, %r) now reads (%r, %r) after %s" % (x, p, getattr(it, "x", None), getattr(it, "priority", None), op))
+        if self.held:
+            self.probes["held_item_rechecked"] += 1
 
     def finish(self):
         self._uf_invariant("end")
